@@ -6,7 +6,8 @@ From Coq Require Import String List.
 From CMinx Require Import Base.Str Model.Parser Model.Writer Model.DocTypes Model.Aggregator
      Spec.AggSpec Gen.SourceLiterals Proofs.AggClass Proofs.LiteralsMatch
      Base.PySem Gen.PySource Proofs.SourceMatch
-     Proofs.SourceMatch2.
+     Proofs.SourceMatch2
+     Model.Pipeline Proofs.SourceMatch3.
 Import ListNotations.
 
 (* cpp_class ... cpp_end_class is balanced: commands after cpp_end_class belong to the enclosing
@@ -236,3 +237,11 @@ Theorem C09_process_member_frame :
     /\ def_stack (process_member is_ctor c doc docd st) = def_stack st.
 Proof. exact process_member_frame. Qed.
 Print Assumptions C09_process_member_frame.
+
+(* py2coq batch 5: ClassDocumentation.process as regenerated from documentation_types.py renders exactly the model class entry *)
+Theorem C09_class_process_matches_source :
+  forall w name doc supers inner ctors members attrs,
+    PySource.ClassDocumentation_process w [] name doc supers inner ctors members attrs
+    = w_add w (render_entry (EClass name doc supers inner ctors members attrs)).
+Proof. exact class_process_matches_source. Qed.
+Print Assumptions C09_class_process_matches_source.
